@@ -593,24 +593,45 @@ def reference(spec):
 
 # --------------------------------------------------------------------------- pytato construction
 
+_VARIANT = None
+
+
+def _variant_class():
+    """a pytools Tag that makes a second receive node distinct from the first (module-level
+    class so that collective payloads containing it can be pickled)"""
+    global _VARIANT, CommVariantTag
+    if _VARIANT is None:
+        from pytools.tag import Tag
+
+        class CommVariantTag(Tag):
+            def __init__(self, k):
+                self.k = k
+
+            def __eq__(self, o):
+                return type(o) is type(self) and o.k == self.k
+
+            def __hash__(self):
+                return hash(("CommVariantTag", self.k))
+
+            def __repr__(self):
+                return f"CommVariantTag({self.k})"
+
+            def __reduce__(self):
+                return (_make_variant, (self.k,))
+        CommVariantTag.__qualname__ = "CommVariantTag"
+        _VARIANT = CommVariantTag
+    return _VARIANT
+
+
+def _make_variant(k):
+    return _variant_class()(k)
+
+
 def build(spec, rank):
     """the DictOfNamedArrays of `rank` (fresh pytato objects on every call)"""
     import pytato as pt
     from pytato.tags import ImplStored
-    from pytools.tag import Tag
-
-    class _Variant(Tag):          # makes a second receive node distinct from the first
-        def __init__(self, k):
-            self.k = k
-
-        def __eq__(self, o):
-            return type(o).__name__ == "_Variant" and o.k == self.k
-
-        def __hash__(self):
-            return hash(("_Variant", self.k))
-
-        def __repr__(self):
-            return f"_Variant({self.k})"
+    _Variant = _variant_class()
 
     rk = spec["ranks"][rank]
     n = spec["n"]
